@@ -216,6 +216,7 @@ def run_one(tools, base, sc, ref_cache):
     if outabs and os.path.isfile(outabs):
         out_after = open(outabs).read()
     obs = dict(name=sc.name, out=sc.out, rm=sc.rm, args=sc.args, flags=base_flags, prior=sc.prior, fault=sc.fault,
+               must_fail=sc.expect_gen_err,
                rc=rc, stdout=so, stderr=se, changed=diff(before, after), out_after=out_after,
                prior_content=prior_content, ref_rc=ref[0], ref_stdout=ref[1], ref_stdout_full=ref[1], root=root,
                out_matches_ref=(out_after == ref[1]) if (rc == 0 and outabs and ref[0] == 0) else None)
